@@ -3,7 +3,7 @@
    "NewFFI" markers: a chain of FFIs, each including the previous one) and, per mode
    ("inl" in-line, "ool" out-of-line ABI modules, "api" compiled API modules), what the real
    FFIs showed:
-     same  : "j:i:kind:name" |-> BOOLEAN   ffi[j].typeof(x) is ffi[i].typeof(x), x declared in ffi[i], i < j
+     same  : "j:i:kind:name" |-> "same" | "different" | "error:X"   ffi[j].typeof(x) is ffi[i].typeof(x), x declared in ffi[i]
      k     : "j:name" |-> value text       integer constant `name` as seen through ffi[j] / lib[j]
      lay   : "j:struct s1" |-> aggregate record as seen through ffi[j] (layout from the included module)
      reach : (api) "j:i:fn|gv|k:name" |-> "ok" | text   lib[j] reaches the function / variable / constant of lib[i]
@@ -55,14 +55,18 @@ Verdict(r, mode) ==
       tdKey(x) == Key3(x[1], OwnerTd(envs, x[1], x[2]), "td", x[2])
       suKey(x) == Key3(x[1], OwnerSU(envs, x[1], x[2]), "su", KeyStr(x[2]))
       enKey(x) == Key3(x[1], OwnerEn(envs, x[1], x[2]), "en", x[2])
-      ok(key) == Has(o.same, key) /\ o.same[key]
-      tdClass(x) == IF gen /\ HasEnum(envs[x[1]].td[x[2]])
+      ok(key) == Has(o.same, key) /\ o.same[key] = "same"
+      failed(key) == Has(o.same, key) /\ o.same[key] \notin {"same", "different"}      \* typeof() raised
+      cycle == "realize:by-value-aggregate-of-function-type-under-construction"
+      tdClass(x) == IF mode = "ool" /\ failed(tdKey(x)) /\ TouchesCycle(envs[x[1]], envs[x[1]].td[x[2]]) THEN cycle
+                    ELSE IF gen /\ HasEnum(envs[x[1]].td[x[2]])
                        /\ ModelId(Ms, x[1], envs[x[1]].td[x[2]]) # IdealId(envs, x[1], envs[x[1]].td[x[2]])
                     THEN recreated ELSE ""
       enClass(x) == IF gen /\ ModelId(Ms, x[1], <<"enum", x[2]>>) # IdealId(envs, x[1], <<"enum", x[2]>>)
                     THEN recreated ELSE ""
       vSame == {<<"same", tdKey(x), tdClass(x)>> : x \in {x \in tdItems : ~ok(tdKey(x))}}
-               \cup {<<"same", suKey(x), "">> : x \in {x \in suItems : ~ok(suKey(x))}}
+               \cup {<<"same", suKey(x), IF mode = "ool" /\ failed(suKey(x)) /\ TouchesCycle(envs[x[1]], x[2]) THEN cycle ELSE "">>
+                        : x \in {x \in suItems : ~ok(suKey(x))}}
                \cup {<<"same", enKey(x), enClass(x)>> : x \in {x \in enItems : ~ok(enKey(x))}}
       \* ---- constants: the same value through every FFI of the chain that sees them
       kItems == {<<j, c>> \in (1..n) \X UNION {AllConsts(envs[j]) : j \in 1..n} : c \in AllConsts(envs[j])}
